@@ -54,10 +54,12 @@ type cacheOp struct {
 	ret     int64 // 0 while pending
 	err     error
 	crashed bool
+	key     string // cache entry the operation addressed
 }
 
 type cacheClient struct {
 	id     int
+	key    string // cache entry this client works on
 	seam   *Seam
 	vfs    filesystem.FS
 	repo   sharedcache.ISharedCacheRepository
@@ -131,7 +133,7 @@ func (w *cacheWorld) addClient(id int) *cacheClient {
 		w.rc.Res.Infra = "cannot create repository: " + err.Error()
 	}
 	ctx, cancel := context.WithCancel(context.Background())
-	c := &cacheClient{id: id, seam: seam, vfs: vfs, repo: repo, ctx: ctx, cancel: cancel}
+	c := &cacheClient{id: id, key: cacheKey, seam: seam, vfs: vfs, repo: repo, ctx: ctx, cancel: cancel}
 	_ = w.disk.View(0).MkdirAll(fmt.Sprintf("/local/c%d", id), 0o755)
 	w.mu.Lock()
 	w.clients[id] = c
@@ -197,7 +199,10 @@ func (w *cacheWorld) begin(c int, kind string, version int) *cacheOp {
 	w.mu.Lock()
 	defer w.mu.Unlock()
 	w.stamp++
-	op := &cacheOp{client: c, kind: kind, version: version, call: w.stamp}
+	op := &cacheOp{client: c, kind: kind, version: version, call: w.stamp, key: cacheKey}
+	if cl := w.clients[c]; cl != nil {
+		op.key = cl.key
+	}
 	w.history = append(w.history, op)
 	return op
 }
@@ -258,7 +263,7 @@ func (w *cacheWorld) identify(dest string) (int, string) {
 func (w *cacheWorld) store(c *cacheClient, shape []int) (*cacheOp, error) {
 	ver, root := w.newVersion(c.id, shape)
 	op := w.begin(c.id, "store", ver.id)
-	err := c.repo.Store(c.ctx, cacheKey, root)
+	err := c.repo.Store(c.ctx, c.key, root)
 	if c.dead {
 		op.crashed = true
 		return op, err
@@ -269,9 +274,9 @@ func (w *cacheWorld) store(c *cacheClient, shape []int) (*cacheOp, error) {
 }
 
 func (w *cacheWorld) fetch(c *cacheClient) (*cacheOp, error) {
-	dest := fmt.Sprintf("/local/c%d/dst", c.id)
+	dest := fmt.Sprintf("/local/c%d/dst-%s", c.id, c.key)
 	op := w.begin(c.id, "fetch", 0)
-	err := c.repo.Fetch(c.ctx, cacheKey, dest)
+	err := c.repo.Fetch(c.ctx, c.key, dest)
 	if c.dead {
 		op.crashed = true
 		return op, err
@@ -283,8 +288,8 @@ func (w *cacheWorld) fetch(c *cacheClient) (*cacheOp, error) {
 		known := false
 		w.mu.Lock()
 		for _, h := range w.history {
-			if h.kind == "store" && h.version == found {
-				known = true
+			if h.kind == "store" && h.version == found && h.key == op.key {
+				known = true // (a version stored under another key does not count: entries are independent)
 			}
 		}
 		w.mu.Unlock()
@@ -304,7 +309,7 @@ func (w *cacheWorld) fetch(c *cacheClient) (*cacheOp, error) {
 
 func (w *cacheWorld) clean(c *cacheClient) error {
 	op := w.begin(c.id, "clean", 0)
-	err := c.repo.CleanEntry(c.ctx, cacheKey)
+	err := c.repo.CleanEntry(c.ctx, c.key)
 	w.end(op, err, 0)
 	return err
 }
@@ -324,10 +329,35 @@ type regInput struct {
 }
 
 func (w *cacheWorld) checkLinearizable(res *RunResult, kind string) {
+	keys := map[string]bool{}
+	w.mu.Lock()
+	for _, h := range w.history {
+		keys[h.key] = true
+	}
+	w.mu.Unlock()
+	for _, k := range sortedKeys(keys) {
+		w.checkLinearizableKey(res, kind, k)
+	}
+}
+
+func sortedKeys(m map[string]bool) []string {
+	var out []string
+	for k := range m {
+		out = append(out, k)
+	}
+	sort.Strings(out)
+	return out
+}
+
+// checkLinearizableKey: the entries of a cache are independent registers.
+func (w *cacheWorld) checkLinearizableKey(res *RunResult, kind, key string) {
 	var ops []porcupine.Operation
 	w.mu.Lock()
 	const inf = int64(1) << 40
 	for _, h := range w.history {
+		if h.key != key {
+			continue
+		}
 		switch h.kind {
 		case "store":
 			ret := h.ret
@@ -624,12 +654,16 @@ func runC16Concurrent(rc *RunCtx) {
 		slowDisk = true
 		res.Probe("contended-slow-store-scenario")
 	}
-	cleaner := !contended && ch.Pick("cleaner", 2, 1) == 1
+	// a second cache entry: some clients work on another key of the same cache (shared store, shared temporary directory);
+	// entries are independent, nothing of one may show up in the other
+	twoKeys := !contended && ch.Intn("twokeys", 4) == 0
+	crossFetch := twoKeys && !faulty && ch.Intn("crossfetch", 2) == 0
+	cleaner := !contended && !crossFetch && ch.Pick("cleaner", 2, 1) == 1
 	if cleaner {
 		res.Probe("housekeeping-client-scenario")
 	}
 	kindName := map[bool]string{true: "mutable", false: "immutable"}[mutable]
-	res.Config = fmt.Sprintf("concurrent kind=%s clients=%d faults=%v slowDisk=%v contendedSlowStore=%v housekeepingClient=%v", kindName, nClients, faulty, slowDisk, contended, cleaner)
+	res.Config = fmt.Sprintf("concurrent kind=%s clients=%d faults=%v slowDisk=%v contendedSlowStore=%v housekeepingClient=%v twoEntries=%v", kindName, nClients, faulty, slowDisk, contended, cleaner, twoKeys)
 	var sim *Sim
 	var w *cacheWorld
 	overlap := false
@@ -646,7 +680,14 @@ func runC16Concurrent(rc *RunCtx) {
 		w = newCacheWorld(rc, sim, mutable)
 		var clients []*cacheClient
 		for i := 1; i <= nClients; i++ {
-			clients = append(clients, w.addClient(i))
+			cl := w.addClient(i)
+			if twoKeys && i%2 == 0 {
+				cl.key = "K2"
+			}
+			clients = append(clients, cl)
+		}
+		if twoKeys {
+			res.Probe("two-cache-entries-scenario")
 		}
 		verifier := w.addClient(9)
 		type step struct {
@@ -654,6 +695,8 @@ func runC16Concurrent(rc *RunCtx) {
 			shape int
 			pause time.Duration
 			delay time.Duration
+			// barrier: after this step the client waits until every client has done its barrier step
+			barrier bool
 		}
 		scripts := make([][]step, nClients)
 		for i := range scripts {
@@ -663,6 +706,18 @@ func runC16Concurrent(rc *RunCtx) {
 					scripts[i] = []step{{act: 0, shape: ch.Intn("shape", len(c16Shapes))}}
 				} else {
 					scripts[i] = []step{{act: 2, delay: time.Duration(20+ch.Intn("delay", 400)) * time.Millisecond}, {act: 3, shape: ch.Intn("shape", len(c16Shapes))}}
+				}
+				continue
+			}
+			if crossFetch {
+				// both entries are filled first (clients 1 and 2), then everybody fetches the entry it works on, at once
+				if i < 2 {
+					scripts[i] = append(scripts[i], step{act: 0, shape: ch.Intn("shape", len(c16Shapes)), barrier: true})
+				} else {
+					scripts[i] = append(scripts[i], step{act: 4, barrier: true})
+				}
+				for j, n := 0, 1+ch.Intn("nfetch", 3); j < n; j++ {
+					scripts[i] = append(scripts[i], step{act: 1})
 				}
 				continue
 			}
@@ -699,7 +754,11 @@ func runC16Concurrent(rc *RunCtx) {
 			victim := clients[ch.Intn("victim", nClients)]
 			w.armFault(victim, ch.Intn("variant", fvCount), ch.Intn("faultk", 1500), &fired)
 		}
-		var wg sync.WaitGroup
+		var wg, barrier sync.WaitGroup
+		if crossFetch {
+			barrier.Add(nClients)
+			res.Probe("cross-entry-fetch-scenario")
+		}
 		inflight := 0
 		workersDone := 0
 		for i, cl := range clients {
@@ -734,6 +793,8 @@ func runC16Concurrent(rc *RunCtx) {
 						_, _ = w.fetch(cl)
 					case 2:
 						_ = w.clean(cl)
+					case 4:
+						// nothing to do before the barrier
 					default:
 						// what a client does about a stale entry lock: clean the entry, then try again
 						_, err := w.store(cl, c16Shapes[st.shape])
@@ -744,6 +805,11 @@ func runC16Concurrent(rc *RunCtx) {
 						}
 					}
 					inflight--
+					if st.barrier {
+						barrier.Done()
+						barrier.Wait()
+						sim.Yield(cl.id, "after-barrier")
+					}
 					if st.pause > 0 {
 						time.Sleep(st.pause)
 					}
@@ -757,59 +823,78 @@ func runC16Concurrent(rc *RunCtx) {
 			fired = true
 			time.Sleep(3*50*time.Millisecond + 10*time.Millisecond)
 			sim.Yield(9, "quiescent")
-			_ = w.clean(verifier)
-			opF, errF := w.fetch(verifier)
-			// the last Store invoked: if it reported success and no other Store overlapped or followed it, it must be what is fetched
-			w.mu.Lock()
-			var last *cacheOp
-			for _, h := range w.history {
-				if h.kind == "store" && (last == nil || h.call > last.call) {
-					last = h
-				}
+			vkeys := []string{cacheKey}
+			if twoKeys {
+				vkeys = append(vkeys, "K2")
 			}
-			clean := last != nil && last.ret != 0 && last.err == nil
-			if clean {
+			for _, key := range vkeys {
+				verifier.key = key
+				_ = w.clean(verifier)
+				opF, errF := w.fetch(verifier)
+				// the last Store invoked: if it reported success and no other Store overlapped or followed it, it must be what is fetched
+				w.mu.Lock()
+				var last *cacheOp
 				for _, h := range w.history {
-					if h.kind == "store" && h != last && (h.ret == 0 || h.ret > last.call) {
-						clean = false
-					}
-				}
-			}
-			w.mu.Unlock()
-			// overlapping Stores: when every Store that failed or was cut short was over before the last successful Store
-			// began, the entry is owed to the successful Stores alone - with nothing in flight the Fetch must succeed and
-			// return the version of that Store or of a successful Store that overlapped it
-			w.mu.Lock()
-			var lastOK *cacheOp
-			for _, h := range w.history {
-				if h.kind == "store" && h.ret != 0 && h.err == nil && !h.crashed && (lastOK == nil || h.call > lastOK.call) {
-					lastOK = h
-				}
-			}
-			owed := lastOK != nil
-			cands := map[int]bool{}
-			if owed {
-				for _, h := range w.history {
-					if h.kind != "store" {
+					if h.key != key {
 						continue
 					}
-					okStore := h.ret != 0 && h.err == nil && !h.crashed
-					if !okStore && (h.ret == 0 || h.ret > lastOK.call) {
-						owed = false
-					}
-					if okStore && (h == lastOK || h.ret > lastOK.call) {
-						cands[h.version] = true
+					if h.kind == "store" && (last == nil || h.call > last.call) {
+						last = h
 					}
 				}
-			}
-			w.mu.Unlock()
-			if owed && !clean && (errF != nil || !cands[opF.version]) {
-				res.Violate("successful-store-not-visible", "quiescent-fetch-returns-no-successful-overlapping-store|"+kindName,
-					fmt.Sprintf("%s: %d overlapping Stores reported success (the last to begin: v%d by client %d) and every failed Store was over before it began; with nothing in flight Fetch returned err=%v version=v%d", res.Config, len(cands), lastOK.version, lastOK.client, errF, opF.version))
-			}
-			if clean && (errF != nil || opF.version != last.version) {
-				res.Violate("successful-store-not-visible", "quiescent-fetch-does-not-return-last-successful-store|"+kindName,
-					fmt.Sprintf("%s: Store(v%d) by client %d reported success, no other Store overlapped or followed it; with nothing in flight Fetch returned err=%v version=v%d", res.Config, last.version, last.client, errF, opF.version))
+				clean := last != nil && last.ret != 0 && last.err == nil
+				if clean {
+					for _, h := range w.history {
+						if h.key != key {
+							continue
+						}
+						if h.kind == "store" && h != last && (h.ret == 0 || h.ret > last.call) {
+							clean = false
+						}
+					}
+				}
+				w.mu.Unlock()
+				// overlapping Stores: when every Store that failed or was cut short was over before the last successful Store
+				// began, the entry is owed to the successful Stores alone - with nothing in flight the Fetch must succeed and
+				// return the version of that Store or of a successful Store that overlapped it
+				w.mu.Lock()
+				var lastOK *cacheOp
+				for _, h := range w.history {
+					if h.key != key {
+						continue
+					}
+					if h.kind == "store" && h.ret != 0 && h.err == nil && !h.crashed && (lastOK == nil || h.call > lastOK.call) {
+						lastOK = h
+					}
+				}
+				owed := lastOK != nil
+				cands := map[int]bool{}
+				if owed {
+					for _, h := range w.history {
+						if h.key != key {
+							continue
+						}
+						if h.kind != "store" {
+							continue
+						}
+						okStore := h.ret != 0 && h.err == nil && !h.crashed
+						if !okStore && (h.ret == 0 || h.ret > lastOK.call) {
+							owed = false
+						}
+						if okStore && (h == lastOK || h.ret > lastOK.call) {
+							cands[h.version] = true
+						}
+					}
+				}
+				w.mu.Unlock()
+				if owed && !clean && (errF != nil || !cands[opF.version]) {
+					res.Violate("successful-store-not-visible", "quiescent-fetch-returns-no-successful-overlapping-store|"+kindName,
+						fmt.Sprintf("%s: %d overlapping Stores reported success (the last to begin: v%d by client %d) and every failed Store was over before it began; with nothing in flight Fetch returned err=%v version=v%d", res.Config, len(cands), lastOK.version, lastOK.client, errF, opF.version))
+				}
+				if clean && (errF != nil || opF.version != last.version) {
+					res.Violate("successful-store-not-visible", "quiescent-fetch-does-not-return-last-successful-store|"+kindName,
+						fmt.Sprintf("%s: Store(v%d) by client %d reported success, no other Store overlapped or followed it; with nothing in flight Fetch returned err=%v version=v%d", res.Config, last.version, last.client, errF, opF.version))
+				}
 			}
 		})
 		sim.Run(w.cancelAll)
